@@ -1348,12 +1348,15 @@ func (enc *VP8Encoder) EncodeFrame() ([]byte, error) {
 	if doSearch && maxPasses < 3 {
 		maxPasses = 3 // ensure enough passes for rate control convergence
 	}
-	// Use parallel encoding when:
-	// - Multiple CPU cores available (GOMAXPROCS > 1)
+	// Use the row-pipelined encoder when:
 	// - Enough rows for meaningful parallelism (mbH >= 4)
 	// - Method >= 3 (RD-based mode selection, which is the hot path)
 	// - Single-pass quality mode (no rate control iteration)
-	useParallel := runtime.GOMAXPROCS(0) > 1 && enc.mbH >= 4 && enc.config.Method >= 3 && !doSearch
+	// The choice must depend on the image and options only, never on
+	// GOMAXPROCS: the two encoders make different coding decisions, and the
+	// output bytes are documented to depend only on img and opts. With one
+	// CPU the pipeline simply runs with a single worker.
+	useParallel := enc.mbH >= 4 && enc.config.Method >= 3 && !doSearch
 
 	var stats ProbaStats
 	for pass := 0; pass < maxPasses; pass++ {
